@@ -403,6 +403,13 @@ theorem mathSec_step (hw : T.WFInv) (nroot fuel : Nat) (IH : AllSpecs T nroot fu
         fin_MTok T _ _ _ (MTok_append T _ _ _ (MTok_OL T _ _ he) hout'), ?_⟩
       intro t ht; simp only [Option.some.injEq] at ht; subst ht; exact htok.1
     refine Post_ite _ _ _ _ _ (fun hk => ?_) (fun _ => ?_)
+    · -- verbatim token: a maths element (its text is no markup)
+      exact mathSec_rec T nroot fuel IH st st (Good_refl T nroot st hg) _ start toksStop envStop _
+        (MathBuf_of_BL T _ _ hrest) hstart henv
+        (MTok_append T _ _ _ hout' (by
+          intro u hu; simp only [List.mem_singleton] at hu; subst hu
+          exact MTok_mkMath T _ _ _ _ htok.1 (by simp)))
+    refine Post_ite _ _ _ _ _ (fun hk => ?_) (fun _ => ?_)
     · -- stop token
       apply Post_pure
       refine ⟨Good_refl T nroot st hg, hrest, fin_MTok T _ _ _ hout', ?_⟩
@@ -531,14 +538,15 @@ theorem dispLoop_rec (nroot fuel : Nat) (IH : AllSpecs T nroot fuel) (st st1 : P
     (out : List Tok) (hb : BL T st.latex.length buf) (hs : start < st.latex.length)
     (ho : OL T st.latex.length out) (he : (endFuncNames T).contains envName = false) :
     Post (displayLoop T fuel buf start envName first next out st1) (fun r st' =>
-      Good T nroot st st' ∧ OL T st.latex.length r.1 ∧ BL T st.latex.length r.2) := by
+      Good T nroot st st' ∧ OL T st.latex.length r.1 ∧ BL T st.latex.length r.2.1 ∧
+        OL T st.latex.length r.2.2) := by
   have hl : st1.latex = st.latex := hgood.2.1
   have := IH.dispLoop buf start envName first next out st1 hgood.1 (by rw [hl]; exact hb) (by rw [hl]; exact hs)
     (by rw [hl]; exact ho) he
   rw [hl] at this
   refine Post_mono _ _ _ this ?_
-  intro r s ⟨h1, h2, h3⟩
-  exact ⟨Good_trans T nroot _ _ _ hgood h1, h2, h3⟩
+  intro r s ⟨h1, h2, h3, h4⟩
+  exact ⟨Good_trans T nroot _ _ _ hgood h1, h2, h3, h4⟩
 
 theorem nextStart_lt (n start : Nat) (b : Buf) (hb : BL T n b) (hs : start < n) :
     (match b.head? with | some t => t.pos | none => start) < n := by
@@ -570,11 +578,21 @@ theorem dispLoop_step (hw : T.WFInv) (nroot fuel : Nat) (IH : AllSpecs T nroot f
   intro _ st2 hgood2
   have ho1 : OL T st.latex.length (out ++ rs.out) := (OL_append T _ _ _).mpr ⟨hout, hro⟩
   have hlp := lastPos_lt _ _ _ (OL_pos T _ _ ho1) hstart
-  have hfin : Post ((pure (out ++ rs.out, sec.buf) : M _) st2) (fun r st' =>
-      Good T nroot st st' ∧ OL T st.latex.length r.1 ∧ BL T st.latex.length r.2) :=
-    Post_pure _ _ _ ⟨hgood2, ho1, hbuf⟩
+  have hl1 : st1.latex = st.latex := hgood.2.1
+  have hfin : Post ((pure (out ++ rs.out, sec.buf, []) : M (List Tok × Buf × List Tok)) st2) (fun r st' =>
+      Good T nroot st st' ∧ OL T st.latex.length r.1 ∧ BL T st.latex.length r.2.1 ∧
+        OL T st.latex.length r.2.2) :=
+    Post_pure _ _ _ ⟨hgood2, ho1, hbuf, OL_nil T _⟩
+  -- an unterminated last section: the error mark is returned as well
+  have hfinE : Post ((pure (out ++ rs.out, sec.buf,
+        latexErrorToks T.toTables "missing end of maths".toList start st1.latex.length) :
+        M (List Tok × Buf × List Tok)) st2) (fun r st' =>
+      Good T nroot st st' ∧ OL T st.latex.length r.1 ∧ BL T st.latex.length r.2.1 ∧
+        OL T st.latex.length r.2.2) := by
+    rw [hl1]
+    exact Post_pure _ _ _ ⟨hgood2, ho1, hbuf, latexErrorToks_OL T _ _ _ hstart⟩
   cases hte : sec.term with
-  | none => exact hfin
+  | none => exact hfinE
   | some e =>
     dsimp only
     refine Post_ite _ _ _ _ _ (fun _ => ?_) (fun _ => ?_)
@@ -591,6 +609,8 @@ theorem dispLoop_step (hw : T.WFInv) (nroot fuel : Nat) (IH : AllSpecs T nroot f
         (Good_trans T nroot _ _ _ hgood2 (Good_diags T nroot st2 st3 hgood2.1 hst3)) _ _ envName _ _ _ hb3
         (nextStart_lt T _ _ _ hb3 hstart)
         (OL_snoc T _ _ _ ho1 (OTok_mkFix T _ _ .space _ hlp (by simp))) henv
+    refine Post_ite _ _ _ _ _ (fun _ => ?_) (fun _ => ?_)
+    · exact hfinE
     · exact hfin
 
 /-! ### `expandDisplayMath` -/
@@ -607,17 +627,17 @@ theorem display_step (hw : T.WFInv) (nroot fuel : Nat) (IH : AllSpecs T nroot fu
   rw [expandDisplayMath.eq_2]
   refine Post_bind _ _ _ _ _ (IH.dispLoop buf tok.pos envName true true _ st hg hb hp
     (OL_cons T _ _ _ hact (OL_cons T _ _ _ hsp2 (OL_nil T _))) henv) ?_
-  intro r st1 ⟨hgood, hr1, hr2⟩
+  intro r st1 ⟨hgood, hr1, hr2, hr3⟩
   have hlp := lastPos_lt _ _ _ (OL_pos T _ _ hr1) hp
   refine Post_ite _ _ _ _ _ (fun _ => ?_) (fun _ => ?_)
-  · have h1 : ∀ c : Char, Post ((pure ([mkFix Kind.text ((Option.map (fun x => x.pos) r.fst.getLast?).getD tok.pos) [c]],
-        r.snd) : M (List Tok × Buf)) st1) (fun r st' =>
+  · have h1 : ∀ c : Char, Post ((pure (r.2.2 ++ [mkFix Kind.text ((Option.map (fun x => x.pos) r.fst.getLast?).getD tok.pos) [c]],
+        r.2.1) : M (List Tok × Buf)) st1) (fun r st' =>
           Good T nroot st st' ∧ OL T st.latex.length r.1 ∧ BL T st.latex.length r.2) := fun c =>
-      Post_pure _ _ _ ⟨hgood, OL_cons T _ _ _ (OTok_mkFix T _ _ .text _ hlp (by simp)) (OL_nil T _), hr2⟩
-    have h2 : Post ((pure ([mkAction ((Option.map (fun x => x.pos) r.fst.getLast?).getD tok.pos)],
-        r.snd) : M (List Tok × Buf)) st1) (fun r st' =>
+      Post_pure _ _ _ ⟨hgood, OL_snoc T _ _ _ hr3 (OTok_mkFix T _ _ .text _ hlp (by simp)), hr2⟩
+    have h2 : Post ((pure (r.2.2 ++ [mkAction ((Option.map (fun x => x.pos) r.fst.getLast?).getD tok.pos)],
+        r.2.1) : M (List Tok × Buf)) st1) (fun r st' =>
           Good T nroot st st' ∧ OL T st.latex.length r.1 ∧ BL T st.latex.length r.2) :=
-      Post_pure _ _ _ ⟨hgood, OL_cons T _ _ _ (OTok_mkAction T _ _ hlp) (OL_nil T _), hr2⟩
+      Post_pure _ _ _ ⟨hgood, OL_snoc T _ _ _ hr3 (OTok_mkAction T _ _ hlp), hr2⟩
     repeat' split
     all_goals first | exact h1 _ | exact h2
   · refine Post_bind _ _ _ _ _ (Post_get st1 (fun a s => st1 = a ∧ st1 = s) ⟨rfl, rfl⟩) ?_
@@ -635,8 +655,9 @@ theorem display_step (hw : T.WFInv) (nroot fuel : Nat) (IH : AllSpecs T nroot fu
       apply Post_pure
       refine ⟨hgood, ?_, hr2⟩
       refine OL_snoc T _ _ _ ((OL_append T _ _ _).mpr ⟨?_, ?_⟩) hact
-      · exact OL_cons T _ _ _ hact (OL_cons T _ _ _ hsp2
-          (OL_cons T _ _ _ (OTok_mkFix T _ _ .text _ hp (by simp)) (OL_nil T _)))
+      · exact (OL_append T _ _ _).mpr ⟨(OL_append T _ _ _).mpr
+          ⟨OL_cons T _ _ _ hact (OL_cons T _ _ _ hsp2 (OL_nil T _)), hr3⟩,
+          OL_cons T _ _ _ (OTok_mkFix T _ _ .text _ hp (by simp)) (OL_nil T _)⟩
       · repeat' split
         all_goals first | exact OL_cons T _ _ _ (OTok_mkFix T _ _ .text _ hp (by simp)) (OL_nil T _) | exact OL_nil T _
     · apply Post_pure
